@@ -54,7 +54,8 @@ RULE = ("case = (leaf observables, batch of samples [+ state], expression tree);
         "(leaves, expression). history cases: one composite object built from a valid expression and used along a sequence (sample "
         "tensor overwritten in place, state re-parametrised in place, other batch length, other chain lengths, "
         "statistics_from_samples, statistics() for (num_samples, num_chains) incl. non-divisible / 0 / 1 / > num_samples with fresh or "
-        "user chains (float64/float32, overwrite on/off) and nn_state.sample wrapped on the instance, apply again). "
+        "user chains (float64/float32, overwrite on/off) and nn_state.sample wrapped on the instance, composite.sample(k, num_samples | "
+        "initial_state) compared with the expression on exactly the drawn batch, apply again). "
         "ARGUMENT FORMS (stream `af` of every generated leaf / state / statistics() call): num_samples, num_chains (no 0-d tensor: it would turn the "
         "running statistics into float32 tensors; no numpy.uint8: ceiling-division idioms negate it), burn_in, steps, the distance c of NeighbourInteraction (no numpy.uint8: `-c` wraps) and the state's "
         "sizes as Python int / numpy.int64 / int32 / intp / uint8 / 0-d numpy array / 0-d torch tensor; absolute, periodic_bcs, overwrite, gpu as bool / "
@@ -1001,6 +1002,12 @@ def gen_history(rng, mode, depth):
                       "user": user, "rows": None if user is None else mk(n, rng.randrange(1, 4)), "overwrite": rng.random() < 0.5,
                       "af": af.new_seed(rng)})
     c["stats"] = stats
+    # composite.sample(nn_state, k, num_samples | initial_state) (audit 2, C16-2): fresh chains or the caller's chains
+    c["sample_calls"] = []
+    for _ in range(2):
+        own = rng.random() < 0.35
+        c["sample_calls"].append({"k": rng.randrange(0, 4), "m": rng.randrange(1, 6), "seed": rng.randrange(1 << 30),
+                                  "rows": mk(n, rng.randrange(1, 4)) if own else None, "overwrite": rng.random() < 0.5})
     return c
 
 
@@ -1197,6 +1204,35 @@ def history_case(ctx, case):
         check_stats("statistics", r, chunks, sub, T=len(calls), c=c_exp, ns=ns,
                     model_args=dict(num_samples=ns, num_chains=nc, burn_in=q["burn_in"], steps=q["steps"], overwrite=q["overwrite"], system=False,
                                     clone_id=1, user_id=0, init_rows=None if user is None else len(q["rows"]), ret_ids=[cl["ret"] for cl in calls]))
+    # ---- composite.sample (ObservableBase.sample: the composite evaluated on what nn_state.sample draws).  nn_state.sample is wrapped on the
+    # instance, the batch it returned is captured; expected = the expression over FRESH leaves on exactly that batch.  (Should a rewrite
+    # obtain its samples without calling nn_state.sample, the same draw is repeated under the same torch seed instead.)
+    for si, q in enumerate(case.get("sample_calls", [])):
+        sub = {**case, "step": f"sample #{si}"}
+        user = None if q["rows"] is None else torch.tensor(q["rows"], dtype=torch.double).reshape(len(q["rows"]), n)
+        kw = {"num_samples": q["m"]} if user is None else {"overwrite": q["overwrite"]}
+        torch.manual_seed(q["seed"])
+        r, err, calls = record_run(st, user, lambda u: obj.sample(st, k=q["k"], initial_state=u, **kw) if si % 2 else
+                                   obj.sample(st, q["k"], initial_state=u, **kw))
+        ctx.count("history:composite_sample_calls"); ctx.count("history:composite_sample:" + ("fresh chains" if user is None else "user chains"))
+        if err is not None or not isinstance(r, torch.Tensor):
+            ctx.oracle("history: sample() of a built composite returns its per-sample values", False, sub,
+                       detail={"raised": err, "returned": repr(r)[:200]}, sig=f"{sig}/sample-raised", theorem=THEOREMS["apply"])
+            continue
+        if calls:
+            drawn = calls[-1]["ret_copy"]
+        else:
+            ctx.count("history:composite_sample:nn_state.sample_not_called")
+            torch.manual_seed(q["seed"])
+            drawn = st.sample(k=q["k"], initial_state=None if user is None else torch.tensor(q["rows"], dtype=torch.double).reshape(len(q["rows"]), n), **kw).clone()
+        got = r.detach().numpy().astype(np.float64)
+        want, sc = expected_values(ctx, expr, specs, cur, drawn.to(torch.int64).tolist())
+        if ctx.driver is not None:
+            ctx.point(f"history[{sub['step']}]: composite.sample", "property", got, want, sub, scale=sc, theorem=THEOREMS["apply"], sig=f"{sig}/sample")
+        else:
+            ctx.oracle(f"history[{sub['step']}]: composite.sample == expression(leaf values on the drawn samples)",
+                       got.shape == want.shape and bool(np.all(np.abs(got - want) <= 1e-9 * sc)), sub,
+                       detail={"impl": got.tolist(), "expected": want.tolist()}, sig=f"{sig}/sample-oracle", theorem=THEOREMS["apply"])
     check_apply("after statistics()", st, cur, t, case["samples"])
 
 
